@@ -58,7 +58,7 @@ func (e *Engine) callBuiltin(st *State, fr *Frame, b *ssa.Builtin, args []Value,
 			}
 			srcLen = len(src)
 		}
-		dn, ok := e.sliceLenConst(dst)
+		dn, ok := e.resolveLen(st, dst.Len)
 		if !ok {
 			panic(unsupported("copy into slice of symbolic length"))
 		}
@@ -136,7 +136,7 @@ func (e *Engine) appendOp(st *State, s SliceV, more Value, call *ssa.CallCommon)
 			add = append(add, t)
 		}
 	}
-	n1, ok := e.sliceLenConst(s)
+	n1, ok := e.resolveLen(st, s.Len)
 	if !ok {
 		panic(unsupported("append to slice of symbolic length"))
 	}
